@@ -540,6 +540,30 @@ theorem vdot_driver (f g r : Fld CRat) (hc : f.dt = DT.complex) (h : vdot CRat.c
   subst hp
   exact ⟨hd, hfull (by simp)⟩
 
+theorem mean_weighted_driver (f m : Fld CRat) (sp : Spaces) (hm : mean f sp = .ok m)
+    (hs : ∀ s ∈ f.subs, s.tv = none ∧ s.dvol ≠ .none)
+    (hW : ∀ l o, parseSpaces sp f.subs.length = .ok l → @fibreVolume CRat CRat.instField f l o ≠ 0) :
+    ∃ l, parseSpaces sp f.subs.length = .ok l ∧ ∀ o,
+      m.val o =
+        sumOver (allIdx (sel true (maskOf f.subs.length l) f.sizes)) (fun c =>
+          f.val (merge (maskOf f.subs.length l) o c) *
+            prodOver l (fun ind => dvolAt f.subs ind (merge (maskOf f.subs.length l) o c))) *
+        (@fibreVolume CRat CRat.instField f l o)⁻¹ :=
+  @mean_weighted CRat CRat.instField _ f m sp hm hs hW
+
+theorem var_weighted_driver (f g : Fld CRat) (sp : Spaces) (hc : f.dt = DT.complex)
+    (hs : ∀ s ∈ f.subs, s.tv = none ∧ s.dvol ≠ .none)
+    (hW : ∀ l o, parseSpaces sp f.subs.length = .ok l → @fibreVolume CRat CRat.instField f l o ≠ 0)
+    (h : var CRat.nsq f sp = .ok g) :
+    ∃ l m, parseSpaces sp f.subs.length = .ok l ∧ mean f sp = .ok m ∧
+      ∀ o, o.length = ((maskOf f.subs.length l).filter (· == false)).length →
+        g.val o =
+          sumOver (allIdx (sel true (maskOf f.subs.length l) f.sizes)) (fun c =>
+            CRat.nsq (f.val (merge (maskOf f.subs.length l) o c) - m.val o) *
+              prodOver l (fun ind => dvolAt f.subs ind (merge (maskOf f.subs.length l) o c))) *
+          (@fibreVolume CRat CRat.instField f l o)⁻¹ :=
+  @var_eq_weighted_variance CRat CRat.instField _ CRat.nsq f g sp (fun hne => absurd hc hne) hs hW h
+
 end Driver
 
 end NiftyVerif.C06
